@@ -25,6 +25,7 @@ import multiprocessing
 import os
 import struct
 
+from tools.tr import tr_tokentree
 from tools.vlib import coqrun
 from tools.vlib.repoenv import VERIF
 
@@ -32,7 +33,26 @@ IMPORTS = ("From Coq Require Import ZArith List Bool.\n"
            "From IPV8V Require Import lib.PyErr lib.Bytes model.M16_lits model.M16_tokentree.\n"
            "Import ListNotations.\nOpen Scope Z_scope.\n")
 
+IMPORTS_GEN = IMPORTS.replace("model.M16_tokentree.", "model.M16_tokentree model.M16_run_gen.")
+
 CORPUS = os.path.join(VERIF, "corpus", "C16")
+
+
+def translate(ctx):
+    """stage G: the token tree's methods translated from the AST (gen/G16_tokentree.v); returns the generated
+    text or None (reported as broken; the stale file is removed so that nothing is proved or evaluated against it)"""
+    try:
+        text = tr_tokentree.write()
+        ctx.extra.setdefault("generated", {})["gen/G16_tokentree.v"] = len(text)
+        return text
+    except Exception as e:   # noqa: BLE001  tr_expr.Unsupported or anything else: fail closed
+        ctx.broke("translator tr_tokentree aborted", e)
+        for ext in (".v", ".vo", ".vos", ".vok", ".glob"):
+            try:
+                os.remove(tr_tokentree.DEST[:-2] + ext)
+            except OSError:
+                pass
+        return None
 
 
 def sha3(b: bytes) -> bytes:
@@ -1037,12 +1057,24 @@ def run(ctx):
             for e in o["errors"]:
                 ctx.broke("corpus replay: harness could not observe the implementation (%s)" % os.path.basename(path), e)
             ctx.count(("corpus", path, cj["label"]))
-    # ---- stage P
+    # ---- stage G + P
     ctx.proofs()
+    gtext = translate(ctx)
+    gen_ok = False
+    if gtext is not None:
+        ctx.proofs(part="C16x")
+        ok_, log_, _cmd, _dt = coqrun.make(["model/M16_run_gen.vo"], timeout=600)
+        gen_ok = ok_
+        if not ok_:
+            ctx.broke("the generated definitions no longer fit the evaluation interface model/M16_run_gen.v", log_[-1500:])
     ctx.coverage["trusted_base"] = [
         "Coq 8.16.1 kernel (coqc, vm_compute); no axioms (Print Assumptions: closed)",
         "hand model coq/model/M16_tokentree.v of TokenTree/Token, tied by this run's correspondence",
         "SHA3-256 and the signature scheme are parameters of the model (tables from hashlib / ECCrypto in the runs)",
+        "translator tools/tr/tr_tokentree.py (Python ast -> Gallina) and its vocabulary coq/model/M16_tokentree_gen.v "
+        "(dict / OrderedDict / loop primitives); assumed outside the translated set: Token.__init__ stores its "
+        "arguments with content None, Token.__hash__ consistent with __eq__, parameters not mutated through a dict "
+        "alias during a call",
         "the injective renaming of digests/signatures to short codes used for the bulk of the runs",
     ]
     ctx.assumptions = ["offered tokens have a 32-byte predecessor pointer (wire form) for the completeness theorem",
@@ -1179,7 +1211,10 @@ def run(ctx):
                              "cases_that_used_the_waiting_area": dist["waited"],
                              "unserialize_public_on_ragged_input_raised_struct_error (accepted, see C03)": dist["struct_errors"]}
     # ---- model inside Coq
-    mism, errs = coqrun.eval_mismatches(IMPORTS, "run_case", "bytes_eqb", coq_cases, os.path.join(ctx.scratch, "tt"),
+    # with the translated definitions available every case is evaluated through both models
+    imports, runfn = (IMPORTS_GEN, "run_case_both") if gen_ok else (IMPORTS, "run_case")
+    ctx.extra["model_evaluated"] = "hand model + generated definitions" if gen_ok else "hand model only"
+    mism, errs = coqrun.eval_mismatches(imports, runfn, "bytes_eqb", coq_cases, os.path.join(ctx.scratch, "tt"),
                                         ctype="case * list Z", shard=60 if ctx.quick else 120, jobs=12, timeout=900)
     for e in errs[:5]:
         ctx.broke("model evaluation failed", e)
@@ -1187,9 +1222,12 @@ def run(ctx):
         i = coq_ix[j]
         detail = {"label": cases[i]["label"], "mode": cases[i]["mode"], "impl_flat": coq_cases[j][1][:600],
                   "case": case_to_json(cases[i])}
+        what = "correspondence: model and implementation differ on case %r" % cases[i]["label"]
         if j == mism[0]:
-            detail["model_flat"] = coqrun.eval_terms(IMPORTS, ["run_case %s" % coq_cases[j][0]], os.path.join(ctx.scratch, "dbg"))[-1500:]
-        ctx.broke("correspondence: model and implementation differ on case %r" % cases[i]["label"], json.dumps(detail)[:3900])
+            detail["model_flat"] = coqrun.eval_terms(imports, ["%s %s" % (runfn, coq_cases[j][0])], os.path.join(ctx.scratch, "dbg"))[-1500:]
+            if "-777" in detail["model_flat"][:200]:
+                what = "correspondence: the GENERATED definitions differ from the hand model on case %r" % cases[i]["label"]
+        ctx.broke(what, json.dumps(detail)[:3900])
     ctx.coverage["traces_validated_against_impl"] += len(coq_cases) - len(mism)
     ctx.coverage["rule"] = (
         "every rooted tree shape with <= %d tokens x every arrival permutation (as labelled trees, exhaustive); the same with one "
